@@ -109,7 +109,8 @@ Proof. exact sid_match_iff. Qed.
 Print Assumptions C08_grammar.
 
 (* Every rejection is ValueError (for sid_to_bytes and for get_target_sd). Every accepted string is in the grammar, its
-   numbers are in range, the result carries exactly the values of its parts (so zero-padded parts denote the same SID), the
+   numbers are in range and written with at most 4300 digits each (short_str: CPython's int() refuses longer decimal strings,
+   leading zeros counted), the result carries exactly the values of its parts (so zero-padded parts denote the same SID), the
    result is in the domain of C08_layout, and its canonical string parses to the same SID. *)
 Theorem C08_rejects : forall str,
   (forall e, sid_parse str = Raise e -> e = ValueError) /\
@@ -119,7 +120,8 @@ Theorem C08_rejects : forall str,
         str = [83; 45; r; 45] ++ a ++ concat (map (cons 45) subs) /\
         is_digit r = true /\ digit_str a = true /\ (1 <= length subs <= 15)%nat /\ forallb digit_str subs = true /\
         sid_rev s = r - 48 /\ sid_auth s = dec_val 0 a /\ sid_subs s = map (dec_val 0) subs /\
-        dec_val 0 a < 2 ^ 48 /\ forallb (fun p => dec_val 0 p <? 2 ^ 32) subs = true)
+        dec_val 0 a < 2 ^ 48 /\ forallb (fun p => dec_val 0 p <? 2 ^ 32) subs = true /\
+        short_str a = true /\ forallb short_str subs = true)
      /\ wf_sid s = true /\ sid_parse (sid_print s) = Ok s).
 Proof.
   exact (fun str => conj (sid_parse_raises str) (conj (get_target_sd_raises str)
@@ -127,15 +129,35 @@ Proof.
 Qed.
 Print Assumptions C08_rejects.
 
-(* conversely every string of the grammar whose numbers are in range is accepted: leading zeros are NOT rejected
-   (Windows accepts them too) *)
+(* conversely every string of the grammar whose numbers are in range and written with at most 4300 digits each is accepted:
+   leading zeros are NOT rejected (Windows accepts them too) up to that length *)
 Theorem C08_accepts : forall (r : Z) (a : pystr) (subs : list pystr),
   is_digit r = true -> digit_str a = true -> (1 <= length subs <= 15)%nat -> forallb digit_str subs = true ->
   dec_val 0 a < 2 ^ 48 -> forallb (fun p => dec_val 0 p <? 2 ^ 32) subs = true ->
+  short_str a = true -> forallb short_str subs = true ->
   sid_parse ([83; 45; r; 45] ++ a ++ concat (map (cons 45) subs)) =
     Ok {| sid_rev := r - 48; sid_auth := dec_val 0 a; sid_subs := map (dec_val 0) subs |}.
 Proof. exact sid_parse_complete. Qed.
 Print Assumptions C08_accepts.
+
+(* and a string of the grammar one of whose numeric parts has more than 4300 digits is refused with ValueError whatever its
+   value (int() raises before the range tests): a non-canonical spelling only, the canonical string of a SID of the domain
+   has at most 15 digits per part (C08_parse_print) *)
+Theorem C08_int_digit_limit : forall (r : Z) (a : pystr) (subs : list pystr),
+  is_digit r = true -> digit_str a = true -> (1 <= length subs <= 15)%nat -> forallb digit_str subs = true ->
+  short_str a && forallb short_str subs = false ->
+  sid_parse ([83; 45; r; 45] ++ a ++ concat (map (cons 45) subs)) = Raise ValueError.
+Proof. exact sid_parse_too_long. Qed.
+Print Assumptions C08_int_digit_limit.
+
+(* "S-1-5-" 0{4298} "18" (4300 digits) is S-1-5-18; one more zero (4301 digits) is refused; the same in the authority *)
+Example C08_ex_digit_limit :
+  short_str (repeat 48 4298 ++ [49; 56]) = true /\ short_str (repeat 48 4299 ++ [49; 56]) = false /\
+  sid_parse ([83; 45; 49; 45; 53; 45] ++ repeat 48 4298 ++ [49; 56]) = Ok {| sid_rev := 1; sid_auth := 5; sid_subs := [18] |} /\
+  sid_parse ([83; 45; 49; 45; 53; 45] ++ repeat 48 4299 ++ [49; 56]) = Raise ValueError /\
+  sid_parse ([83; 45; 49; 45] ++ repeat 48 4299 ++ [53; 45; 49; 56]) = Ok {| sid_rev := 1; sid_auth := 5; sid_subs := [18] |} /\
+  sid_parse ([83; 45; 49; 45] ++ repeat 48 4300 ++ [53; 45; 49; 56]) = Raise ValueError.
+Proof. repeat split; vm_compute; reflexivity. Qed.
 
 (* an accepted string is the canonical string of its SID up to leading zeros of its numeric parts: sid_print of the result is
    the accepted string with every part stripped of leading '0' (strip0 keeps the last character, so "000" -> "0") *)
@@ -241,7 +263,7 @@ Proof. vm_compute; reflexivity. Qed.
 
 (* ---- flows: the source functions themselves, regenerated as syntax (gen/F_sd.v), compute the model functions above ------ *)
 (* World: Flow/World_sd.v. re.compile / .match := the model's recogniser sid_match for the pattern k_sid_regex (C08_regex,
-   C08_grammar); int() on a str := py_int; .split("-") := split_on; data[i] = v := set_item (bytearray item store);
+   C08_grammar); int() on a str := py_int (ASCII digits, at most 4300 of them); .split("-") := split_on; data[i] = v := set_item (bytearray item store);
    sid_to_bytes / acl_to_bytes as callees := the model functions tied below. No hypothesis on the arguments other than their
    Python classes (str, int, list of bytes, Optional list of bytes); any fuel (the only loop is a `for`). *)
 From V Require Import Prelude.PyAst Prelude.PyWorld gen.F_sd Flow.World_sd Proofs.Flow_sd_enc.
@@ -266,3 +288,14 @@ Theorem C08_flow_sd_to_bytes : forall fuel owner group sacl dacl,
   = lift (sd_to_bytes owner group (acl_of sacl) (acl_of dacl)).
 Proof. exact flow_sd_to_bytes. Qed.
 Print Assumptions C08_flow_sd_to_bytes.
+
+(* SIDDescriptor.get_target_sd (_blob.py; flow listed in vlib/ktab/asn1.py under C05 and C08, world Flow/World_cms.v whose
+   callees ace_to_bytes / sd_to_bytes are the model functions tied above; lemma in Proofs/Flow_cms_sd.v): the method computes
+   Model.SecDesc.get_target_sd of the descriptor's SID string, the function C08_entry_points / C08_layout are about *)
+From V Require Import Prelude.PyAstMut gen.F_asn1.
+From V Require Flow.World_cms Proofs.Flow_cms_sd.
+Theorem C08_flow_get_target_sd : forall fuel sid,
+  run_mut World_cms.MW fuel k_flow_SIDDescriptor_get_target_sd [VO (World_cms.OSidDesc sid)]
+  = let* b := get_target_sd sid in Ok (VB b, [VO (World_cms.OSidDesc sid)]).
+Proof. exact Flow_cms_sd.flow_SIDDescriptor_get_target_sd. Qed.
+Print Assumptions C08_flow_get_target_sd.
